@@ -103,7 +103,9 @@ def outcome_validate(res):
                 diags.append({"file": path, "code": d["code"],
                               "range": [r["start"]["line"], r["start"]["character"], r["end"]["line"], r["end"]["character"]],
                               "severity": d["severity"], "data": data_json(d.get("data"))})
-    return {"run": {"diags": diags}, "exit": res["exit"], "stdout_empty": res["stdout"] == ""}
+    # `files`: the keys of the printed JSON object; `printed`: whether anything was written to stderr at all
+    return {"run": {"diags": diags, "files": sorted(obj) if err.strip() else [], "printed": bool(err.strip())},
+            "exit": res["exit"], "stdout_empty": res["stdout"] == ""}
 
 
 def outcome_list(res):
@@ -213,6 +215,11 @@ def compare_cli_validate(cli, model):
             diffs.append(("cli.run.diags", ir.get("diags"), mr.get("diags")))
         if not cli.get("stdout_empty", True):
             diffs.append(("cli.stdout", "not empty", "validation prints nothing on stdout"))
+        # the report: one JSON object keyed by the files that have diagnostics; nothing at all without diagnostics
+        if "files" in ir and "files" in mr and sorted(ir["files"]) != sorted(mr["files"]):
+            diffs.append(("cli.report.files", ir["files"], sorted(mr["files"])))
+        if "printed" in ir and "prints" in mr and ir["printed"] != mr["prints"]:
+            diffs.append(("cli.report.printed", ir["printed"], mr["prints"]))
     if cli.get("exit") != model.get("exit"):
         diffs.append(("cli.exit", cli.get("exit"), model.get("exit")))
     return diffs
